@@ -29,6 +29,10 @@
 (*   "it"    list(insts[inst])              index loop  self[i]            *)
 (*   "items" list(insts[inst].items())                                     *)
 (*   "pf"    list(insts[inst].prefetch(w, b))   thread back end            *)
+(*   "pft"   list(insts[inst].tile(2).prefetch(w, b))          w >= 2      *)
+(*   "pfd"   list(insts[inst][[0,0,1,1,..]].prefetch(w, b))    w >= 2      *)
+(*           pool workers that request EVERY example TWICE, possibly at    *)
+(*           the same time (defect S21, see below)                         *)
 (*   "copy"  insts.append(insts[inst].copy(freeze = (i = 1)))              *)
 (*   "drop"  available memory falls below the threshold (MemDrop)          *)
 (*   "up"    upstream[i] read directly, not through the cache              *)
@@ -39,6 +43,17 @@
 (* Defect S6 (original code): the cache is keyed by the RAW int, so c[-1]  *)
 (* and c[len-1] are different slots.  Modelled behind "S6" \in Unfixed;    *)
 (* repaired = an in-range negative index is normalised before the lookup.  *)
+(*                                                                         *)
+(* Defect S21 (open): __getitem__ is check-then-act without a lock.  Two   *)
+(* pool workers that ask for the SAME uncached example at the same time    *)
+(* both miss, the upstream computes it twice and two different values are  *)
+(* handed out.  ApplyStep is a function of the history, so the prediction  *)
+(* for "pft" / "pfd" is the SEQUENTIALISED one (= the repaired design: an  *)
+(* atomic get) whether or not "S21" \in Unfixed; the interleavings of the  *)
+(* three sub-steps lookup / compute / store are the separate small module  *)
+(* CacheRace.tla (constant Atomic).  "S21" \in Unfixed only enables the    *)
+(* RELAXED verdict V_C10x(.., TRUE) with which the harness recognises a    *)
+(* violation that is this race and nothing else (known finding).           *)
 (***************************************************************************)
 EXTENDS Integers, Sequences, FiniteSets, TLC, Json, Defects
 
@@ -53,7 +68,8 @@ CONSTANTS
   FreezeVals,  \* subset of {0, 1}: copy(freeze=..)
   MaxInst,     \* original + copies
   PfForms,     \* set of <<workers, buffer>>
-  MaxUp, MaxPf \* budgets per history
+  PftForms,    \* set of <<"pft" | "pfd", workers >= 2, buffer>>
+  MaxUp, MaxPf \* budgets per history (MaxPf: pf + pft + pfd)
 
 KeyNames == <<"a", "b", "c", "d", "e">>
 
@@ -82,6 +98,12 @@ SubF  == {0 - 3, 0 - 2, 0 - 1, 0, 1, 2}
 Pf12  == {<<1, 2>>, <<2, 2>>}
 Pf2   == {<<2, 2>>}
 Pf123 == {<<1, 1>>, <<1, 3>>, <<2, 2>>, <<2, 3>>, <<3, 3>>}
+\* tile(2) over n examples: the two requests for one example are n tasks apart,
+\* they can only be in flight together when the buffer holds more than n tasks
+PftNone == {}
+PftQ3 == {<<"pft", 2, 4>>, <<"pfd", 2, 2>>}
+PftF3 == {<<"pft", 2, 4>>, <<"pft", 3, 4>>, <<"pft", 2, 2>>, <<"pfd", 2, 2>>, <<"pfd", 3, 3>>}
+PftF2 == {<<"pft", 2, 3>>, <<"pft", 3, 3>>, <<"pfd", 2, 2>>, <<"pfd", 3, 4>>}
 
 -----------------------------------------------------------------------------
 (* Values, Python indexing                                                 *)
@@ -195,6 +217,9 @@ Loop(par, st, inst, idxs) ==
 -----------------------------------------------------------------------------
 (* One step of a history                                                   *)
 
+\* steps whose pool workers request every example twice
+RaceOps == {"pft", "pfd"}
+
 Out(st, exc, vs, ks) ==
   [st |-> st, o |-> [exc |-> exc, vs |-> vs, ks |-> ks, calls |-> st.calls]]
 One(r) == Out(r.st, r.exc, IF r.ok THEN <<r.v>> ELSE <<>>, <<>>)
@@ -234,6 +259,25 @@ ApplyStep(par, st, step) ==
                               Range(0, n - 1))
               IN Out([r.st EXCEPT !.latch = SubSeq(r.st.latch, 1, Len(st.latch))],
                      r.exc, r.vs, <<>>)
+    [] step.op \in RaceOps ->
+         \* PrefetchDataset: input_dataset = self.input_dataset.copy(freeze=True)
+         \*   "pft" ConcatenateDataset(c, c).copy -> TWO temporary cache copies,
+         \*         global index i < n goes to the first, n <= i to the second
+         \*   "pfd" SliceDataset([0,0,1,1,..], c).copy -> ONE temporary copy
+         \* the pool calls input_dataset[i]; results are delivered in order.
+         \* Sequentialised (atomic get, the repaired design of S21).
+         LET k  == Len(st.latch)
+             s1 == [st EXCEPT !.latch = st.latch \o (IF step.op = "pft" THEN <<TRUE, TRUE>>
+                                                     ELSE <<TRUE>>)]
+             Trim(s) == [s EXCEPT !.latch = SubSeq(s.latch, 1, k)]
+         IN IF step.op = "pft"
+            THEN LET r1 == Loop(par, s1, k + 1, Range(0, n - 1)) IN
+                 IF r1.exc # "none" THEN Out(Trim(r1.st), r1.exc, <<>>, <<>>)
+                 ELSE LET r2 == Loop(par, r1.st, k + 2, Range(0, n - 1))
+                      IN Out(Trim(r2.st), r2.exc,
+                             IF r2.exc = "none" THEN r1.vs \o r2.vs ELSE <<>>, <<>>)
+            ELSE LET r == Loop(par, s1, k + 1, [j \in 1..(2 * n) |-> (j - 1) \div 2])
+                 IN Out(Trim(r.st), r.exc, r.vs, <<>>)
     [] step.op = "copy" ->
          \* copy = __new__; copy._cache = self._cache; _do_cache NOT set
          Out([st EXCEPT !.latch = Append(st.latch, TRUE)], "none", <<>>, <<>>)
@@ -260,7 +304,7 @@ ModelRun(par, hist) ==
 (* obs = [init |-> calls after construction,                               *)
 (*        steps |-> <<[exc, vs, ks, calls]>>]  one record per step          *)
 
-CacheOps == {"gi", "gs", "sg", "si", "it", "items", "pf"}
+CacheOps == {"gi", "gs", "sg", "si", "it", "items", "pf", "pft", "pfd"}
 
 \* 1-based example positions a step has to return, in order; <<>> together
 \* with MustRaise when the access is outside the dataset
@@ -273,10 +317,21 @@ Touch(par, step) ==
                           ELSE <<step.s + PyPos(n - step.s, step.i)>>)
     [] step.op = "si" -> Range(step.s + 1, n)
     [] step.op \in {"it", "items", "pf"} -> Range(1, n)
+    [] step.op = "pft" -> Range(1, n) \o Range(1, n)
+    [] step.op = "pfd" -> [j \in 1..(2 * n) |-> ((j - 1) \div 2) + 1]
     [] OTHER -> <<>>
 MustRaise(par, step) == step.op \in {"gi", "gs", "sg"} /\ Touch(par, step) = <<>>
 
-V_C10(par, hist, obs) ==
+\* relaxed = FALSE: the property as stated.
+\* relaxed = TRUE (only while S21 is open): the examples of `race` - computed
+\* exactly twice inside the pool step that is their first access through the
+\* cache, which requests them twice - are judged "up to the race": both
+\* values handed out by that step are ones computed in it, every later access
+\* returns ONE of them (the same one for the rest of the history) and nothing
+\* is computed again.  All other examples, and all other clauses, as stated.
+\* <<"na", ..>> when no example raced.  A violation of V_C10 with
+\* V_C10x(.., TRUE) = "ok" is S21 and nothing else.
+V_C10x(par, hist, obs, relaxed) ==
   \* (functions, not operators: TLC evaluates a LET-bound value once)
   LET n    == NOf(par)
       T    == Len(hist)
@@ -301,6 +356,26 @@ V_C10(par, hist, obs) ==
       firstVal == [e \in 1..n |-> IF firstT[e] > T THEN NoVal
                                   ELSE Val(e - 1, IF rand THEN before[firstT[e]][e] + 1 ELSE 0)]
       firstV(e) == firstVal[e]
+      race == IF ~(relaxed /\ "S21" \in Unfixed /\ par.lazy) THEN {}
+              ELSE {e \in 1..n : /\ firstT[e] <= T /\ firstT[e] < dropAt
+                                  /\ hist[firstT[e]].op \in RaceOps /\ hist[firstT[e]].w >= 2
+                                  /\ delta[firstT[e]][e] = 2}
+      \* the computation numbers of the two racing computations
+      cand == [e \in 1..n |-> IF e \notin race THEN {}
+                               ELSE IF rand THEN {before[firstT[e]][e] + 1,
+                                                  before[firstT[e]][e] + 2}
+                               ELSE {0}]
+      \* everything returned for e by the steps after the racing one
+      later == [e \in 1..n |->
+                 IF e \notin race THEN {}
+                 ELSE UNION {{obs.steps[t].vs[p] : p \in {q \in 1..Len(tch[t]) : tch[t][q] = e}}
+                             : t \in {u \in (firstT[e] + 1)..T : isAcc[u]}}]
+      RaceStable ==
+        \A e \in race :
+          /\ \A p \in 1..Len(tch[firstT[e]]) :
+               tch[firstT[e]][p] = e => obs.steps[firstT[e]].vs[p].k \in cand[e]
+          /\ Cardinality(later[e]) <= 1
+          /\ \A v \in later[e] : v.k \in cand[e]
       Shape(t) ==    \* transparent: the right examples, in order, or raises
         LET o == obs.steps[t] IN
         IF MustRaise(par, hist[t]) THEN o.exc # "none"
@@ -322,24 +397,30 @@ V_C10(par, hist, obs) ==
                              ELSE v.k = 0
            IN ForAllRet(Q)
       FirstValue ==
-        LET Q(t, e, v) == t < dropAt => v = firstV(e) IN ForAllRet(Q)
+        LET Q(t, e, v) == (t < dropAt /\ e \notin race) => v = firstV(e) IN ForAllRet(Q)
       ComputeOnce ==
         \A e \in 1..n :
-          /\ SumSeq([t \in 1..T |-> IF IsAcc(t) /\ t < dropAt THEN Delta(t, e) ELSE 0]) <= 1
+          LET most == IF e \in race THEN 2 ELSE 1 IN    \* (race: the 2 of the racing step)
+          /\ SumSeq([t \in 1..T |-> IF IsAcc(t) /\ t < dropAt THEN Delta(t, e) ELSE 0]) <= most
           \* cached before the drop: never computed again for the life of the cache
           /\ first(e) < dropAt =>
-               SumSeq([t \in 1..T |-> IF IsAcc(t) THEN Delta(t, e) ELSE 0]) <= 1
+               SumSeq([t \in 1..T |-> IF IsAcc(t) THEN Delta(t, e) ELSE 0]) <= most
       \* "no further examples are cached": an example first needed after the
       \* crossing is computed anew on every access and the new value is returned
+      \* (a pool step asks for e at several positions: one computation per
+      \* position; concurrent workers deliver the new values in either order)
       NoCachingAfterDrop ==
         \A e \in 1..n : first(e) > dropAt =>
           \A t \in AccOf(e) :
-            /\ Delta(t, e) = 1
-            /\ \A p \in 1..Len(Tch(t)) :
-                 Tch(t)[p] = e => obs.steps[t].vs[p] =
-                                    Val(e - 1, IF rand THEN obs.steps[t].calls[e] ELSE 0)
+            LET occ == {p \in 1..Len(Tch(t)) : Tch(t)[p] = e}
+                m   == Cardinality(occ)
+                c   == obs.steps[t].calls[e]
+            IN /\ Delta(t, e) = m
+               /\ IF rand THEN {obs.steps[t].vs[p].k : p \in occ} = (c - m + 1)..c
+                  ELSE \A p \in occ : obs.steps[t].vs[p].k = 0
       FrozenBeforeDrop ==
-        LET Q(t, e, v) == (t > dropAt /\ first(e) < dropAt) => v = firstV(e) IN ForAllRet(Q)
+        LET Q(t, e, v) == (t > dropAt /\ first(e) < dropAt /\ e \notin race) => v = firstV(e)
+        IN ForAllRet(Q)
       \* lazy=False: content and order fixed at call time, upstream invisible later
       EagerSnapshot ==
         /\ \A e \in 1..n : obs.init[e] = par.pre[e] + 1
@@ -347,15 +428,19 @@ V_C10(par, hist, obs) ==
         /\ LET Q(t, e, v) == v = Val(e - 1, IF rand THEN par.pre[e] + 1 ELSE 0)
            IN ForAllRet(Q)
   IN IF \A t \in 1..T : ~IsAcc(t) THEN <<"trivial", "no-cache-access">>
+     ELSE IF relaxed /\ race = {} THEN <<"na", "no-race">>
      ELSE IF ~Transparent THEN <<"viol", "Transparent">>
      ELSE IF ~AlwaysProduced THEN <<"viol", "AlwaysProduced">>
      ELSE IF ~par.lazy
           THEN (IF EagerSnapshot THEN <<"ok", "eager">> ELSE <<"viol", "EagerSnapshot">>)
      ELSE IF ~FirstValue THEN <<"viol", "FirstValue">>
+     ELSE IF ~RaceStable THEN <<"viol", "RaceStable">>
      ELSE IF ~ComputeOnce THEN <<"viol", "ComputeOnce">>
      ELSE IF ~NoCachingAfterDrop THEN <<"viol", "NoCachingAfterDrop">>
      ELSE IF ~FrozenBeforeDrop THEN <<"viol", "FrozenBeforeDrop">>
      ELSE <<"ok", IF dropAt <= T THEN "lazy-drop" ELSE "lazy">>
+
+V_C10(par, hist, obs) == V_C10x(par, hist, obs, FALSE)
 
 \* real observation vs the model's prediction
 ConformsAt(o, m) ==
@@ -384,8 +469,10 @@ Steps ==
   \cup {Stp("si", j, 0, "", s, 0, 0) : j \in I, s \in SliceStarts}
   \cup {Stp("it", j, 0, "", 0, 0, 0) : j \in I}
   \cup {Stp("items", j, 0, "", 0, 0, 0) : j \in I}
-  \cup (IF CountOp("pf") < MaxPf
-        THEN {Stp("pf", j, 0, "", 0, f[1], f[2]) : j \in I, f \in PfForms} ELSE {})
+  \cup (IF CountOp("pf") + CountOp("pft") + CountOp("pfd") < MaxPf
+        THEN {Stp("pf", j, 0, "", 0, f[1], f[2]) : j \in I, f \in PfForms}
+             \cup {Stp(f[1], j, 0, "", 0, f[2], f[3]) : j \in I, f \in PftForms}
+        ELSE {})
   \cup (IF Len(st.latch) < MaxInst
         THEN {Stp("copy", j, fr, "", 0, 0, 0) : j \in I, fr \in FreezeVals} ELSE {})
   \cup (IF par.lazy /\ par.keep = "thr" /\ ~st.low
